@@ -40,6 +40,62 @@ def independent_recovery(label, pb, orig_secret, pw):
     return e
 
 
+def mixed_state_events(ctx):
+    """mixed protection states: the primary is NOT protected, its subkeys are protected and locked (each protected on its own, as a key
+    arrives whose producer protects subkeys only). Operations that would use a locked subkey refuse; protect() of the key must not destroy
+    what it cannot read: afterwards each subkey's secret is still recoverable by an independent reader, under the old or the new passphrase."""
+    pgpy = import_pgpy()
+    from pgpy.constants import SymmetricKeyAlgorithm, HashAlgorithm, KeyFlags
+    ev = []
+    saved = keylife.fast_s2k()
+    try:
+        for alg, subs in (('ed25519', [('ed25519', {KeyFlags.Sign}), ('cv25519', {KeyFlags.EncryptCommunications})]), ('rsa2048', [('rsa2048', {KeyFlags.Sign})])):
+            k = K.new_key(alg, name='Mixed %s' % alg, email='mixed@x.org', usage={KeyFlags.Certify}, subs=subs)
+            pub = pgpy.PGPKey.from_blob(bytes(k.pubkey))[0]
+            secrets = []
+            for sk in k.subkeys.values():
+                pbody = next(b for t_, b, r_ in build.read_packets(bytes(sk)) if t_ in (5, 7))
+                secrets.append(bytes(pbody[build.pub_portion_len(pbody) + 1:-2]))       # usage 0: secret integers, then the 16-bit checksum
+                sk.protect('sub pass', SymmetricKeyAlgorithm.AES128, HashAlgorithm.SHA256)
+            label = '%s primary unprotected, subkeys locked' % alg
+            with warnings.catch_warnings():
+                warnings.simplefilter('ignore')
+                try:
+                    s = k.sign('mixed text', created=K.ts(K.T0 + 3))
+                    out = 'valid-signature' if pub.verify('mixed text', s) else 'invalid-signature'
+                except Exception:
+                    out = 'refused'
+                ev.append({'k': 'mixed', 'label': label + ': sign', 'op': 'sign', 'outcome': out})
+                if len(subs) > 1:
+                    try:
+                        m = pub.encrypt(pgpy.PGPMessage.new('mixed secret'))
+                        d = k.decrypt(m)
+                        out = 'decrypted' if d.message == 'mixed secret' else 'wrong-plaintext'
+                    except Exception:
+                        out = 'refused'
+                    ev.append({'k': 'mixed', 'label': label + ': decrypt', 'op': 'decrypt', 'outcome': out})
+                try:
+                    k.protect('key pass', SymmetricKeyAlgorithm.AES256, HashAlgorithm.SHA256)
+                except Exception as ex:
+                    ev.append({'k': 'mixed', 'label': label + ': protect', 'op': 'protect', 'outcome': 'raised'})      # refusing is fine
+                blob = bytes(k)
+            bodies = [b for t_, b, r_ in build.read_packets(blob) if t_ == 7]
+            for j, (pb, sec) in enumerate(zip(bodies, secrets)):
+                opened = None
+                for pw in ('sub pass', 'key pass'):
+                    r = independent_recovery('%s: subkey %d after protect() of the key, passphrase %r' % (label, j + 1, pw), pb, sec, pw)
+                    if not r['failed'] and r['pt'][-20:] == r['sha1_all_but_last_20']:
+                        opened = r
+                        break
+                if opened is not None:
+                    ev.append(opened)
+                else:
+                    ev.append({'k': 'mixed', 'label': '%s: subkey %d after protect() of the key' % (label, j + 1), 'op': 'protect', 'outcome': 'secret-lost'})
+    finally:
+        keylife.restore_s2k(saved)
+    return ev
+
+
 def recover_events(ctx):
     """independent recovery from PGPy's protected export + foreign protected forms."""
     pgpy = import_pgpy()
@@ -201,7 +257,7 @@ def run(ctx):
         b = t['behaviour'][:step]
         ctx.violation(clause, 'alg=%s last-action=%s' % (t['meta']['alg'], b[-1][0]), {'behaviour': b, 'obs': {k: v for k, v in t['events'][step - 1]['obs'].items() if k not in ('privblob', 'pub', 'priv_uids')},
                                                                                            'raised': t['events'][step - 1]['raised']})
-    rev = recover_events(ctx)
+    rev = recover_events(ctx) + mixed_state_events(ctx)
     for e in rev:
         ctx.case((e['k'], e['label']))
     ctx.sample({k: v for k, v in rev[0].items() if k not in ('body', 'pt', 'orig_secret')})
